@@ -62,6 +62,11 @@ def gen_ci(rng, R=None):
         key = t + "optional"
         tops[key] = [{"id": key, "uid": t + "-optional", "name": "opt", "type": "optional", "arches": ["x86_64"]},
                      gen_paths(rng, R, ["x86_64"]), dict(FRESH_REL), {}]
+    for t in list(tops):
+        for cid in list(tops[t][3]):
+            if rng.random() < 0.12 and (t + cid) not in tops:
+                # a top-level variant whose UID is a nested variant's UID without the dash ("ServerHA" beside Server/HA)
+                tops[t + cid] = gen_tree(rng, R, t + cid, t + cid, ["x86_64"], 2, top=True)
     return {"desc": [valid_compose(rng, R), rel, bp, tops]}
 
 
@@ -81,6 +86,8 @@ def generate(rng, n):
             comp["date"] = "20150522"
         elif k < 0.4:
             comp["id"] = rng.choice(["F-22-20150522.xyz.3", "F-22-20150522", "Custom-1-20150522.n"])
+        elif k < 0.46:
+            comp["respin"] = rng.choice([2 ** 53 + 1, 2 ** 61 + 5, 2 ** 62 - 1, 9007199254740993])      # beyond what a double holds (the wire format stops at 2^62)
         out.append(c)
     return out
 
